@@ -10,6 +10,7 @@ Point.distance and compared with the exact cosh^2; each model's closed form is e
 the library's own coordinates; metric laws are evaluated on the library's values.
 """
 import itertools
+import json
 import random
 
 import numpy as np
@@ -56,7 +57,68 @@ def conversion_lts(run, n, B):
     c = core.cfg(constants=dict(N=n, B=B, MaxSteps=1), invariants=["PointFixed", "InModel"], view="View",
                  action_constraints=["Emit"])
     r = run.tlc("hyp/HypPoints.tla", c, name="HypPoints_n%d" % n, workers=min(8, core.NCPU))
+    far, farpairs = None, None
+    for line in r.stdout.splitlines():
+        if line.startswith('"FAR '):
+            far = json.loads(json.loads(line)[4:])
+        if line.startswith('"FARPAIRS '):
+            farpairs = json.loads(json.loads(line)[9:])
+    if far is None or farpairs is None:
+        raise core.MachineryFailure("no FAR tables printed by HypPoints.tla")
+    replay_far(run, n, far, farpairs)
     return r.emits
+
+
+def replay_far(run, n, far, farpairs):
+    """points far from the origin (cosh d up to 3363): conversions among projective / Klein / Poincare / hyperboloid
+    against the exact coordinates, the half-space model through its round trip, distances against the exact cosh"""
+    H = hyp()
+    models = ["projective", "klein", "poincare", "hyperboloid"]
+    coords = {m: np.array([rat(f[m]) if m != "projective" else np.array(f["x"], float) for f in far]) for m in models}
+    key = "far:n=%d" % n
+    for m1 in models:
+        for m2 in models + ["halfspace"]:
+            run.case(key=(key, m1, m2), action="convert_far")
+            try:
+                p = H.Point(coords[m1].copy(), model=m1)
+                if m2 == "halfspace":
+                    # no exact half-space oracle here: the round trip must return to the exact point
+                    back = np.asarray(H.Point(np.asarray(p.coords("halfspace")), model="halfspace").coords("klein"))
+                    ok = coords_equal("klein", back, coords["klein"], 1e-7)
+                    got, want = back, coords["klein"]
+                else:
+                    got = np.asarray(p.coords(m2))
+                    want = coords[m2]
+                    # relative to the distance from the boundary, not to the coordinate itself: these points sit at
+                    # 1 - |k| ~ 1/cosh^2 d from the unit sphere and a chart map may not collapse that gap
+                    ok = coords_equal(m2, got, want, 1e-9)
+                    if m2 in ("klein", "poincare"):
+                        gap_got = 1 - (got ** 2).sum(-1)
+                        gap_want = 1 - (want ** 2).sum(-1)
+                        ok = ok & (np.abs(gap_got - gap_want) <= 1e-6 * gap_want)
+            except Exception as ex:
+                run.violation("%s:%s->%s:raise" % (key, m1, m2), "raised:convert_far", dict(n=n, frm=m1, to=m2, error="%s: %s" % (type(ex).__name__, ex)))
+                continue
+            for i in np.nonzero(~ok)[0][:2]:
+                run.violation("%s:%s->%s:x=%s" % (key, m1, m2, far[i]["x"]), "convert_far.value",
+                              dict(n=n, x=far[i]["x"], frm=m1, to=m2, got=np.asarray(got)[i].tolist(), spec=np.asarray(want)[i].tolist()))
+    X = np.array([p[0] for p in farpairs], float)
+    Y = np.array([p[1] for p in farpairs], float)
+    want = np.array([-p[2][0] / p[2][1] for p in farpairs])
+    try:
+        with np.errstate(all="ignore"):
+            d = np.asarray(H.Point(X.copy()).distance(H.Point(Y.copy())))
+        bad = ~(np.isfinite(d) & (np.abs(np.cosh(d) - want) <= 1e-8 * want))
+        same = np.array([p[0] == p[1] for p in farpairs])
+        bad |= same & ~(d <= 1e-5)
+    except Exception as ex:
+        run.violation(key + ":distance:raise", "raised:distance_far", dict(n=n, error="%s: %s" % (type(ex).__name__, ex)))
+        bad = np.zeros(len(farpairs), bool)
+    run.evaluations += len(farpairs)
+    for i in np.nonzero(bad)[0][:2]:
+        run.violation("%s:distance:%s:%s" % (key, farpairs[i][0], farpairs[i][1]), "distance_far",
+                      dict(n=n, x=farpairs[i][0], y=farpairs[i][1], lib=float(d[i]), spec_cosh=float(want[i])))
+    run.sample(dict(kind="far point", n=n, point=far[-1]))
 
 
 def replay_conversions(run, n, emits, rng):
